@@ -23,7 +23,7 @@ EXPLANATION = (
     "result comprehension iterates the original key list; except arms inside the fallback loops fall through; the "
     "unavailable error is raised only after the last host."
 )
-SHARED = [('C08', ['R2', 'R5'], 'requests go to the address the current metadata names'), ('C11', ['R1'], 'a request to a broker that never answers ends in the failed list, not in silence')]
+SHARED = [('C08', ['R1'], 'the leader the routing looks up is the one the metadata reply names (a listed leader is not turned into `no leader`)'), ('C08', ['R2', 'R5'], 'requests go to the address the current metadata names'), ('C11', ['R1'], 'a request to a broker that never answers ends in the failed list, not in silence')]
 ASSUMPTIONS = ["dict/defaultdict preserve insertion order; DeferredList preserves the order of its input list"]
 KC = "client:KafkaClient"
 
@@ -152,7 +152,7 @@ def run(ctx):
             where(sba, defs[0] if defs else sba.node), "caller receives responses in broker-answer order, not payload order")
 
     # ---- R5 accounting
-    r = ctx.rule("R5", "a failed broker result puts every payload of that request on the failed list; the error carries both lists", 2, "A")
+    r = ctx.rule("R5", "a failed broker result puts every payload of that request on the failed list, an answered one those its reply left out; the error carries both lists", 3, "A")
     zv = [None, plv] if plv else []
     # the operation that records the payloads of one result: adds (payload, <response>) for every payload of that result
     zbody = cf.reach([zl[0].id], avoid=[t for t, lab in cf.succ[zl[0].id] if lab == ("iter", False)]) if zl else set()
@@ -172,6 +172,50 @@ def run(ctx):
         ok = True
     r.check(ok, "%s#all-payloads-of-failed-request" % sba.qname, "not every payload of a failed request is recorded as failed",
             where(sba, fe[0] if fe else sba.node), "some payloads are neither answered nor reported failed")
+    # an *answered* request accounts for every payload too: the result list drops keys that no reply named (`if k in
+    # acc`), so the payloads of a request whose reply left them out must go to the failed list - or the lookup must
+    # be unfiltered (a missing key then fails loudly)
+    from ..cfg import cond_atoms
+    acc_stores = [n_ for n_ in cf.nodes if n_.id in zbody and n_.kind == "stmt" and isinstance(n_.stmt, ast.Assign) and isinstance(
+        n_.stmt.targets[0], ast.Subscript) and isinstance(n_.stmt.targets[0].value, ast.Name) and isinstance(n_.stmt.targets[0].slice, ast.Tuple)
+        and [norm(e_).split(".")[-1] for e_ in n_.stmt.targets[0].slice.elts] == ["topic", "partition"]]
+    filtered = any(lc.generators[0].ifs for d in defs for lc in ast.walk(d.value) if isinstance(lc, ast.ListComp)) or any(
+        isinstance(y, ast.If) for lp in walk_body_shallow(sba.body) if isinstance(lp, ast.For) and norm(lp.iter) == keys for y in ast.walk(lp))
+    okc, whyc = True, ""
+    if acc_stores and filtered and plv and fe:
+        accn = acc_stores[0].stmt.targets[0].value.id
+        failed_list = call_recv(fe[0])
+
+        def _is_unanswered(conds, tgt):
+            key_txt = "(%s.topic, %s.partition) in %s" % (tgt, tgt, accn)
+            return any((key_txt, False) in cond_atoms(c_, True) for c_ in conds)
+        coll = [fc for fc in filtered_collects(sba) if norm(fc[2]) == plv and isinstance(fc[3], ast.Name) and _is_unanswered(fc[4], fc[3].id)]
+        okc, whyc = False, "no statement collects the payloads of an answered request whose key is not in `%s`" % accn
+        for name_, elt_, _src, tgt_, _conds in coll:
+            if name_ == failed_list:
+                sites = [(elt_, tgt_, None)]
+            else:
+                sites = [(a[1], a[3], a[4]) for a in list_adds(sba) if a[0] == failed_list and a[2] is not None and norm(a[2]) == name_]
+            for e_, t_, call_ in sites:
+                if not (isinstance(e_, ast.Tuple) and len(e_.elts) == 2 and t_ is not None and norm(e_.elts[0]) == norm(t_)):
+                    whyc = "the unanswered payloads are not recorded as (payload, failure) pairs on `%s`" % failed_list
+                    continue
+                an = cf.containing(call_)[0] if call_ is not None and cf.containing(call_) else None
+                if an is not None:
+                    if an.id not in zbody or an.id not in cf.reach([acc_stores[0].id]):
+                        whyc = "the unanswered payloads are not recorded after the reply was decoded, inside the loop over the results"
+                        continue
+                    base = {norm(t.stmt.test) for t, lab in cf.control_deps_transitive(acc_stores[0].id, within=zbody) if t.kind == "test"}
+                    extra = [norm(t.stmt.test) for t, lab in cf.control_deps_transitive(an.id, within=zbody) if t.kind == "test"
+                             and norm(t.stmt.test) not in base and norm(t.stmt.test) not in (name_, "len(%s)" % name_, "len(%s) > 0" % name_,
+                                                                                               "%s != []" % name_, "len(%s) != 0" % name_)]
+                    if extra:
+                        whyc = "recording the unanswered payloads depends on %s" % extra
+                        continue
+                okc = True
+    r.check(okc, "%s#answered-request-accounts-for-every-payload" % sba.qname, whyc, where(sba, acc_stores[0].stmt if acc_stores else sba.node),
+            "a reply that leaves out a partition of its request: the caller gets a shorter list, the producer's send for that "
+            "partition never completes")
     rs = [x for x in walk_body_shallow(sba.body) if isinstance(x, ast.Raise) and isinstance(x.exc, ast.Call) and call_name(x.exc) == "FailedPayloadsError"]
     ok = len(rs) == 1 and norm(rs[0].exc.args[0]) == resv and norm(rs[0].exc.args[1]) == call_recv(fe[0]) if fe else False
     r.check(ok, "%s#error-carries-both" % sba.qname, "FailedPayloadsError does not carry (responses, failed payloads)", where(sba, sba.node))
@@ -194,7 +238,7 @@ def run(ctx):
             where(src, src.node), "JoinGroup/Heartbeat sent to a broker that is not the coordinator")
 
     # ---- R7 fallback order
-    r = ctx.rule("R7", "broker-agnostic: all known brokers connected-first, then every bootstrap host, then the unavailable error", 5, "B")
+    r = ctx.rule("R7", "broker-agnostic: all known brokers connected-first, then every bootstrap host, then the unavailable error", 6, "B")
     sbu = ctx.func(KC + "._send_broker_unaware_request")
     cu = ctx.cfg(sbu)
     def _all_keys_of(e, table):  # a fresh list of every key of the mapping: list(T), list(T.keys()), [k for k in T]
@@ -222,7 +266,21 @@ def run(ctx):
     for e in exc:
         arm = cu.reach([e.id], avoid=[lp[0].id] if lp else [])
         okx = okx and cu.exit.id not in arm and cu.raise_exit.id not in arm and lp[0].id in cu.reach([e.id])
-    r.check(okx, "%s#failure-falls-through" % sbu.qname, "a failed broker ends the attempt instead of trying the next one", where(sbu, sbu.node),
+    # ... whatever Kafka error the attempt ends with (case analysis over the package's error table): the try around the
+    # per-broker request has a handler for each class
+    from .c09 import exc_table
+    anc_, _al = exc_table(prog)
+    reqs_ = [n for n in cu.nodes if lp and n.id in cu.reach([lp[0].id], avoid=[t for t, lab in cu.succ[lp[0].id] if lab == ("iter", False)]) and
+             any(call_name(c) == "_make_request_to_broker" for c in n.calls())]
+    trys_ = [x for x in ast.walk(sbu.node) if isinstance(x, ast.Try) and reqs_ and any(reqs_[0].stmt is y or reqs_[0].stmt in list(ast.walk(y)) for b in x.body for y in [b])]
+    uncaught = []
+    if trys_:
+        for cls_ in sorted(k for k, up in anc_.items() if "KafkaError" in up):
+            if not any(handler_for(prog, cu, t_, cls_, anc_) is not None for t_ in trys_):
+                uncaught.append(cls_)
+    okx = okx and bool(trys_) and not uncaught
+    r.check(okx, "%s#failure-falls-through" % sbu.qname, "a failed broker ends the attempt instead of trying the next one%s" % (
+        " (not caught: %s%s)" % (", ".join(uncaught[:6]), " ..." if len(uncaught) > 6 else "") if uncaught else ""), where(sbu, sbu.node),
             "one unreachable broker makes metadata loading fail although others are up")
     # the loop runs over a snapshot of the broker ids and suspends in its body: the address book can lose a broker
     # meanwhile (a full refresh answered to another lookup).  Whatever looks an id up in the book again (the broker-client
@@ -245,6 +303,18 @@ def run(ctx):
                             "is still known" % lv_, where(sbu, c), "a full metadata refresh removes a broker that has not been tried yet while an "
                             "earlier one is awaited; that one fails: the lookup of the removed id raises KeyError and the operation fails "
                             "at once - the remaining brokers and the bootstrap hosts are never tried")
+    # every known broker is asked: an iteration ends without the request having been made only for an id that is no longer
+    # in the address book
+    if lp and reqs_:
+        lv2 = unparse(lp[0].stmt.target)
+        b_entry = [t for t, lab in cu.succ[lp[0].id] if lab == ("iter", True)]
+        noreq = set(cu.reach(b_entry, avoid=[reqs_[0].id, lp[0].id], follow_exc=False)) | set(b_entry)
+        skippers = [cu.nodes[i] for i in noreq if i != reqs_[0].id and any(t == lp[0].id for t, lab in cu.succ[i] if lab != ("exc",))]
+        bad_skip = [n for n in skippers if not (("%s not in self._brokers" % lv2, True) in fu_[n.id] or ("%s in self._brokers" % lv2, False) in fu_[n.id])]
+        r.check(not bad_skip, "%s#every-known-broker-asked" % sbu.qname, "a known broker is passed over without being asked (line %s)" % ", ".join(
+            str(n.lineno) for n in bad_skip), where(sbu, bad_skip[0].stmt if bad_skip else sbu.node),
+            "the only broker that could answer is being reconnected to: it is skipped, the others and the bootstrap hosts fail, "
+            "the caller sees an unavailable error")
     bs = [n for n in cu.nodes if any(call_name(c) == "_send_bootstrap_request" for c in n.calls())]
     lbody = cu.reach([lp[0].id], avoid=[t for t, lab in cu.succ[lp[0].id] if lab == ("iter", False)]) if lp else set()
     r.check(len(bs) == 1 and bs[0].id not in lbody and cu.dominates([lp[0].id], bs[0].id) if lp else False, "%s#bootstrap-after-brokers" % sbu.qname,
@@ -310,6 +380,14 @@ def run(ctx):
 
 
 MUTANTS = [
+    {"id": "left-out-payloads-dropped", "file": "client.py",
+     "old": "            unanswered = [p for p in payloads if (p.topic, p.partition) not in acc]\n            if unanswered:\n",
+     "new": "            unanswered = [p for p in payloads if (p.topic, p.partition) not in acc]\n            if unanswered and False:\n",
+     "expect": "C07.R5", "note": "finding F38"},
+    {"id": "left-out-payloads-of-another-request", "file": "client.py",
+     "old": "            unanswered = [p for p in payloads if (p.topic, p.partition) not in acc]\n",
+     "new": "            unanswered = [p for plist in payloadsList for p in plist if (p.topic, p.partition) not in acc]\n",
+     "expect": "C07.R5", "note": "finding F38: payloads of requests not yet looked at are reported as left out"},
     {"id": "unaware-loop-no-revalidation", "file": "client.py",
      "old": "            if node_id not in self._brokers:\n                # A metadata refresh removed this broker while an earlier one\n                # was being tried: there is nobody to ask, go on to the next\n                continue\n",
      "new": "", "expect": "C07.R7", "note": "finding F34"},
